@@ -204,11 +204,12 @@ def run_pass(work, repo, name, mut_sigs):
             res["ignored_locals"] += 1
             continue
         name = "%s::%s" % (e["type"], e["fn"])
+        b["name"] = name
         if name in MUTATORS:
             if name not in res["expected_in_mutators"]:
                 res["expected_in_mutators"].append(name)
         else:
-            res["violations"].append({"obligation": "purity.%s" % name, "message": b["message"], "repo_source": "%s:%d" % (b["file"], b["line"]),
+            res["violations"].append({"obligation": "purity.%s" % name, "name": name, "message": b["message"], "repo_source": "%s:%d" % (b["file"], b["line"]),
                                       "receiver_is_shared_ref": e["self_ref"], "rendered": b["rendered"]})
     return res
 
@@ -218,3 +219,76 @@ if __name__ == "__main__":
     print(json.dumps({k: v for k, v in r.items() if k != "violations"}, indent=1))
     for v in r["violations"]:
         print("PURITY-VIOLATION", v["obligation"], v["repo_source"], v["message"])
+
+
+def public_surface(repo="/repo"):
+    """every fn (with its receiver kind) in the non-test impl blocks of the library's stateful types"""
+    out = {}
+    for rel in ("src/price_level/level.rs", "src/price_level/order_queue.rs", "src/price_level/statistics.rs",
+                "src/price_level/snapshot.rs", "src/utils/uuid.rs", "src/execution/match_result.rs", "src/execution/list.rs",
+                "src/execution/transaction.rs", "src/orders/order_type.rs"):
+        txt = open(os.path.join(repo, rel), encoding="utf-8").read()
+        msk = extract.mask(txt)
+        cut = msk.find("#[cfg(test)]")
+        for im in re.finditer(r"(?m)^impl\b[^{]*\{", msk):
+            if 0 <= cut < im.start():
+                continue
+            b = msk.find("{", im.start())
+            e = extract.match_brace(msk, b)
+            hdr = extract.norm_ws(txt[im.start():b])
+            depth = 0
+            i = b
+            while i < e:
+                ch = msk[i]
+                if ch == "{":
+                    depth += 1
+                elif ch == "}":
+                    depth -= 1
+                elif depth == 1 and msk.startswith("fn ", i) and not (msk[i - 1].isalnum() or msk[i - 1] == "_"):
+                    fm = re.match(r"fn\s+(\w+)", msk[i:])
+                    po = msk.find("(", i)
+                    pc = extract.match_brace(msk, po, "(", ")")
+                    recv = "&mut self" if re.match(r"\(\s*&\s*mut\s+self\b", msk[po:pc]) else ("&self" if re.match(r"\(\s*&\s*self\b", msk[po:pc]) else ("self" if re.match(r"\(\s*(mut\s+)?self\b", msk[po:pc]) else "-"))
+                    out["%s :: %s" % (hdr, fm.group(1))] = recv
+                    i = pc
+                    continue
+                i += 1
+    return out
+
+
+STATE_BUILDERS = ["Self {", "PriceLevel {", "OrderQueue {", "AtomicU64::new", "AtomicUsize::new", "DashMap::new", "SegQueue::new",
+                  "DashMap::with_capacity", "Default::default()"]
+
+
+def uncontracted_state_builders(contracted, repo="/repo"):
+    """functions of level.rs / order_queue.rs that are NOT under contract (FromStr, Deserialize, Display, ...) must not
+    build or patch the representation themselves: they may only go through the contracted constructors and mutators.
+    Returns the offenders (fn, pattern)."""
+    bad = []
+    for rel in ("src/price_level/level.rs", "src/price_level/order_queue.rs"):
+        txt = open(os.path.join(repo, rel), encoding="utf-8").read()
+        msk = extract.mask(txt)
+        cut = msk.find("#[cfg(test)]")
+        for im in re.finditer(r"(?m)^impl\b[^{]*\{", msk):
+            if 0 <= cut < im.start():
+                continue
+            b = msk.find("{", im.start())
+            e = extract.match_brace(msk, b)
+            hdr = extract.norm_ws(txt[im.start():b])
+            if not re.search(r"\b(PriceLevel|OrderQueue|OrderQueueVisitor)\b", hdr) or "PriceLevelData" in hdr.split(" for ")[-1]:
+                continue
+            for fm in re.finditer(r"\bfn\s+(\w+)", msk[b:e]):
+                fs = b + fm.start()
+                bo = msk.find("{", fs)
+                semi = msk.find(";", fs)
+                if bo < 0 or (0 <= semi < bo):
+                    continue
+                be = extract.match_brace(msk, bo)
+                key = "%s :: %s" % (hdr, fm.group(1))
+                if key in contracted:
+                    continue
+                body = msk[bo:be]
+                for pat in STATE_BUILDERS:
+                    if pat in body:
+                        bad.append((key, pat))
+    return bad
